@@ -1,7 +1,7 @@
 (* C09 -- base64 codec and docenc.  Only statements; proofs are in B64/ and Docenc/.
    Bytes are Z in [0,256) (bytes_okb); the model functions are the executable
    ones that the correspondence check runs against preprocess/base64.cc. *)
-From PP Require Import B64.Base64Defs B64.Base64Proofs.
+From PP Require Import B64.Base64Defs B64.Base64Proofs Docenc.DocencDefs Docenc.DocencProofs.
 Local Open Scope Z_scope.
 
 (* Encoding any byte string yields its RFC 4648 base64 with padding
@@ -31,6 +31,57 @@ Theorem C09_decode_rejects_foreign :
 Proof. exact decode_rejects_foreign_proof. Qed.
 Print Assumptions C09_decode_rejects_foreign.
 
+(* `docenc -d | docenc` reproduces any sequence of documents made of non-empty,
+   newline-free lines (default separator: blank line).  b64_file = one RFC 4648
+   line per document; decoded_stream = what docenc -d prints. *)
+Theorem C09_docenc_roundtrip_newline :
+  forall docs : list (list (list Z)),
+  forallb doc_ok docs = true -> forallb (fun d => bytes_okb (doc_text d)) docs = true ->
+  decode_tool 10 [] (b64_file (map doc_text docs)) = TOk (decoded_stream 10 (map doc_text docs)) /\
+  encode_tool 10 [] (decoded_stream 10 (map doc_text docs)) = TOk (b64_file (map doc_text docs)).
+Proof. exact docenc_roundtrip_newline_proof. Qed.
+Print Assumptions C09_docenc_roundtrip_newline.
+
+(* the same with -0 for NUL-free texts (any bytes otherwise: CR, newlines, blank lines, empty documents) *)
+Theorem C09_docenc_roundtrip_nul :
+  forall texts : list (list Z),
+  forallb bytes_okb texts = true -> forallb (no_delim 0) texts = true ->
+  decode_tool 0 [] (b64_file texts) = TOk (decoded_stream 0 texts) /\
+  encode_tool 0 [] (decoded_stream 0 texts) = TOk (b64_file texts).
+Proof. exact docenc_roundtrip_nul_proof. Qed.
+Print Assumptions C09_docenc_roundtrip_nul.
+
+(* index arguments (already expanded: M-N = M..N) in any order, with repeats:
+   exactly the documents whose 1-based position is listed are printed, in input order *)
+Theorem C09_docenc_index_select :
+  forall delim texts idx,
+  forallb bytes_okb texts = true -> idx <> [] -> (forall x, In x idx -> (1 <= x)%nat) ->
+  decode_tool delim idx (b64_file texts) =
+    TOk (decoded_stream delim
+      (map snd (filter (fun pd => existsb (Nat.eqb (fst pd)) idx) (combine (seq 1 (length texts)) texts)))).
+Proof. exact docenc_index_select_proof. Qed.
+Print Assumptions C09_docenc_index_select.
+
+(* the same selection on the encoding side: `docenc IDX` keeps exactly the listed documents *)
+Theorem C09_docenc_index_select_encode_newline :
+  forall docs idx,
+  forallb doc_ok docs = true -> forallb (fun d => bytes_okb (doc_text d)) docs = true ->
+  idx <> [] -> (forall x, In x idx -> (1 <= x)%nat) ->
+  encode_tool 10 idx (decoded_stream 10 (map doc_text docs)) =
+    TOk (b64_file (map doc_text
+      (map snd (filter (fun pd => existsb (Nat.eqb (fst pd)) idx) (combine (seq 1 (length docs)) docs))))).
+Proof. exact docenc_index_select_encode_newline_proof. Qed.
+Print Assumptions C09_docenc_index_select_encode_newline.
+
+Theorem C09_docenc_index_select_encode_nul :
+  forall texts idx,
+  forallb bytes_okb texts = true -> forallb (no_delim 0) texts = true ->
+  idx <> [] -> (forall x, In x idx -> (1 <= x)%nat) ->
+  encode_tool 0 idx (decoded_stream 0 texts) =
+    TOk (b64_file (map snd (filter (fun pd => existsb (Nat.eqb (fst pd)) idx) (combine (seq 1 (length texts)) texts)))).
+Proof. exact docenc_index_select_encode_nul_proof. Qed.
+Print Assumptions C09_docenc_index_select_encode_nul.
+
 (* non-vacuity: the hypotheses are met by concrete non-trivial data *)
 Example C09_nonvacuous_roundtrip :
   bytes_okb [0; 255; 16; 131; 77] = true /\
@@ -40,4 +91,11 @@ Proof. vm_compute. repeat split. Qed.
 
 Example C09_nonvacuous_foreign :
   forallb is_alpha [81; 85; 74; 68] = true /\ is_alpha 127 = false /\ is_alpha 255 = false /\ is_alpha 10 = false.
+Proof. vm_compute. repeat split. Qed.
+
+Example C09_nonvacuous_docenc :
+  forallb doc_ok [[[97; 13]; [98]]; []; [[13]]] = true /\
+  forallb (fun d => bytes_okb (doc_text d)) [[[97; 13]; [98]]; []; [[13]]] = true /\
+  b64_file (map doc_text [[[97; 13]; [98]]; []; [[13]]]) = [89; 81; 48; 75; 89; 103; 111; 61; 10; 10; 68; 81; 111; 61; 10] /\
+  decode_tool 10 [3; 1; 3]%nat (b64_file (map doc_text [[[97; 13]; [98]]; []; [[13]]])) = TOk [97; 13; 10; 98; 10; 10; 13; 10; 10].
 Proof. vm_compute. repeat split. Qed.
